@@ -171,3 +171,76 @@ M('C07','silent-guard-form','kvstore/sequence.go','if seq.next >= seq.reserved {
 M('C07','silent-release-guard-form','kvstore/sequence.go','''	if seq.next >= seq.reserved {
 		// nothing is leased''','''	if seq.reserved == 0 || seq.reserved <= seq.next {
 		// nothing is leased''','',silent=True)
+
+# ---------------- C04
+M('C04','has-no-closed-check','kvstore/mapdb/mapdb.go','''func (s *mapDB) Has(key kvstore.Key) (bool, error) {
+	if s.closed.Load() {
+		return false, kvstore.ErrStoreClosed
+	}
+''','''func (s *mapDB) Has(key kvstore.Key) (bool, error) {
+''','closed-gate kvstore/mapdb.mapDB.Has')
+M('C04','commit-no-closed-check','kvstore/mapdb/mapdb.go','''func (b *batchedMutations) Commit() error {
+	if b.closed.Load() {
+		return kvstore.ErrStoreClosed
+	}
+''','''func (b *batchedMutations) Commit() error {
+''','closed-gate kvstore/mapdb.batchedMutations.Commit')
+M('C04','view-own-flag','kvstore/mapdb/mapdb.go','''		m:      s.m, // use the same underlying map
+		closed: s.closed,''','''		m:      s.m, // use the same underlying map
+		closed: new(atomic.Bool),''','closed-gate/shared-flag mapDB literal in kvstore/mapdb.mapDB.WithRealm')
+M('C04','close-noop','kvstore/mapdb/mapdb.go','''	if s.closed.Swap(true) {
+		// was already closed
+		return nil
+	}
+''','''	if s.closed.Load() {
+		// was already closed
+		return nil
+	}
+''','closed-gate kvstore/mapdb.mapDB.Close')
+M('C04','flush-after-closed','kvstore/mapdb/mapdb.go','''func (s *mapDB) Flush() error {
+	if s.closed.Load() {
+		return kvstore.ErrStoreClosed
+	}
+''','''func (s *mapDB) Flush() error {
+''','closed-gate kvstore/mapdb.mapDB.Flush')
+M('C04','realm-order-swapped','kvstore/mapdb/mapdb.go','s.m.delete(byteutils.ConcatBytes(s.realm, key))','s.m.delete(byteutils.ConcatBytes(key, s.realm))','realm/key-prefixed delete call in kvstore/mapdb.mapDB.delete')
+M('C04','deleteprefix-no-realm','kvstore/mapdb/mapdb.go','s.m.deletePrefix(byteutils.ConcatBytes(s.realm, prefix))','s.m.deletePrefix(prefix)','realm/key-prefixed deletePrefix call in kvstore/mapdb.mapDB.DeletePrefix')
+M('C04','get-no-copy','kvstore/mapdb/synced_map.go','return byteutils.ConcatBytes(value), true','return value, true','copy/in-out kvstore/mapdb.syncedKVMap.get')
+M('C04','set-no-copy','kvstore/mapdb/synced_map.go','s.m[string(key)] = byteutils.ConcatBytes(value)','s.m[string(key)] = value','copy/in-out')
+M('C04','iterate-no-copy','kvstore/mapdb/synced_map.go','copiedElements[key] = byteutils.ConcatBytes(value)','copiedElements[key] = value','copy/in-out kvstore/mapdb.syncedKVMap.iterate')
+M('C04','iterate-ignore-direction','kvstore/mapdb/synced_map.go','''	for _, key := range utils.SortSlice(keysSlice, iterDirection...) {
+		if !consume([]byte(key)[len(realm):], copiedElements[key]) {''','''	for _, key := range utils.SortSlice(keysSlice) {
+		if !consume([]byte(key)[len(realm):], copiedElements[key]) {''','order/sorted-direction kvstore/mapdb.syncedKVMap.iterate')
+M('C04','iteratekeys-no-stop','kvstore/mapdb/synced_map.go','''		if !consume([]byte(key)[len(realm):]) {
+			break
+		}''','''		if !consume([]byte(key)[len(realm):]) {
+			continue
+		}''','order/stop-on-false kvstore/mapdb.syncedKVMap.iterateKeys')
+M('C04','iterate-no-strip','kvstore/mapdb/synced_map.go','if !consume([]byte(key)[len(realm):], copiedElements[key]) {','if !consume([]byte(key), copiedElements[key]) {','realm/strip kvstore/mapdb.syncedKVMap.iterate')
+M('C04','sortslice-backward-asc','kvstore/utils/utils.go','sort.Sort(sort.Reverse(sort.StringSlice(slice)))','sort.Sort(sort.StringSlice(slice))','order/sortslice')
+M('C04','batch-set-keeps-delete','kvstore/mapdb/mapdb.go','''	delete(b.deleteOperations, stringKey)
+	b.setOperations[stringKey] = value''','''	b.setOperations[stringKey] = value''','batch/disjoint kvstore/mapdb.batchedMutations.Set')
+M('C04','cancel-half','kvstore/mapdb/mapdb.go','''	b.setOperations = make(map[string]kvstore.Value)
+	b.deleteOperations = make(map[string]types.Empty)
+}''','''	b.setOperations = make(map[string]kvstore.Value)
+}''','batch/disjoint kvstore/mapdb.batchedMutations.Cancel')
+M('C04','flushkv-delete-no-flush','kvstore/flushkv/flushkv.go','''	if err := s.store.Delete(key); err != nil {
+		return err
+	}
+
+	return s.store.Flush()''','''	if err := s.store.Delete(key); err != nil {
+		return err
+	}
+
+	return nil''','fwd/flush-after-write kvstore/flushkv.flushKVStore.Delete')
+M('C04','flushkv-view-wraps-parent','kvstore/flushkv/flushkv.go','''	return &flushKVStore{
+		store: store,
+	}, nil''','''	_ = store
+
+	return &flushKVStore{
+		store: s.store,
+	}, nil''','fwd/wraps-inner kvstore/flushkv.flushKVStore.WithRealm')
+M('C04','debug-set-swapped','kvstore/debug/debug.go','return s.underlying.Set(key, value)','return s.underlying.Set(value, key)','fwd/delegates kvstore/debug.debugStore.Set')
+M('C04','debug-iterate-drops-direction','kvstore/debug/debug.go','return s.underlying.Iterate(prefix, kvConsumerFunc, iterDirection...)','return s.underlying.Iterate(prefix, kvConsumerFunc)','fwd/delegates kvstore/debug.debugStore.Iterate')
+M('C04','flushkv-extended-realm-order','kvstore/flushkv/flushkv.go','return s.WithRealm(byteutils.ConcatBytes(s.Realm(), realm))','return s.WithRealm(byteutils.ConcatBytes(realm, s.Realm()))','realm/extended kvstore/flushkv.flushKVStore.WithExtendedRealm')
+M('C04','debug-has-calls-get','kvstore/debug/debug.go','return s.underlying.Has(key)','_, err := s.underlying.Get(key)\n\n\treturn err == nil, nil','fwd/delegates kvstore/debug.debugStore.Has')
